@@ -12,6 +12,7 @@ type checker struct {
 	prop  string
 	truth simkit.Truth
 	hist  []*TxnHist
+	trace []*simkit.RPCRecord
 	out   []simkit.Violation
 	mock  bool // backend M: the repository's mock (a few documented differences from TiKV)
 }
@@ -333,4 +334,42 @@ func eqPairs(a, b [][2]string) bool {
 		}
 	}
 	return true
+}
+
+// checkC03: 'undetermined' is returned only when a request that could have moved
+// the commit point was sent and its outcome could not be learned.
+func (c *checker) checkC03() {
+	for _, h := range c.hist {
+		if h.EndKind != "commit" || h.CommitErr != "undetermined" || h.Cut {
+			continue
+		}
+		cause := ""
+		for _, r := range c.trace {
+			if simkit.VersionOf(r.Req) != h.StartTS || r.Client != h.Prog.Client {
+				continue
+			}
+			commitPoint := false
+			switch req := r.Req.Req.(type) {
+			case *kvrpcpb.CommitRequest:
+				commitPoint = true // 2PC: the primary's commit (any commit request before the primary is known to be committed)
+				_ = req
+			case *kvrpcpb.PrewriteRequest:
+				commitPoint = req.UseAsyncCommit || req.TryOnePc
+			}
+			if !commitPoint {
+				continue
+			}
+			if !r.Returned {
+				cause = fmt.Sprintf("%s#%d: %v (fate %q)", r.Identity, r.Occ, r.RetErr, r.Fate)
+				break
+			}
+			if re, _ := respErrs(r); re != nil && re.UndeterminedResult != nil {
+				cause = fmt.Sprintf("%s#%d: UndeterminedResult region error", r.Identity, r.Occ)
+				break
+			}
+		}
+		if cause == "" {
+			c.fail("C03", "undetermined-without-cause", fmt.Sprintf("txn%d", h.Prog.ID), "txn %d: Commit returned 'result undetermined' but every commit-point request of it was answered definitely", h.Prog.ID)
+		}
+	}
 }
